@@ -10,7 +10,7 @@ if [ -n "$VP_RUN_REPO" ]; then sed -i "s#=> /repo#=> $VP_RUN_REPO#" go.mod; fi
 ./setup.sh >/dev/null || exit 2
 mkdir -p /tmp/allseeds-ev.$$; cp evidence/*.json /tmp/allseeds-ev.$$/ 2>/dev/null
 for name in $(jq -r '.[].name' seeded/index.json); do
-  prop=$(jq -r --arg n "$name" '.[] | select(.name==$n) | .property' seeded/index.json)
+  prop=$(jq -r --arg n "$name" '.[] | select(.name==$n) | (.check // .property)' seeded/index.json)
   patch=$PWD/seeded/$name/patch.diff
   if ! git -C $repo apply --check "$patch" 2>/dev/null; then echo "$name $prop PATCH-DOES-NOT-APPLY"; continue; fi
   git -C $repo apply "$patch"
